@@ -390,7 +390,7 @@ func Property() runner.Property {
 	return runner.Property{
 		ID:          "C16",
 		Level:       "model_checking",
-		Rule:        "publisher-level root + NewMonitor (untyped, and typed pod through the real typed wrapper) with a recording handler whose every callback contains a scheduling point (handler slower than the producer = the scheduler delays it); event sequences of length <= 3 over all three event types; Monitor.Close / publisher shutdown at every position of the stream including before readiness; all interleavings (S1) for K<=2, deviation-bounded (S2) for K=3; oracle on the callback log: OnInitialize at most once and first with a cache content that existed since readiness, later callbacks are a contiguous run of the published events (all of them when nothing is closed), enter/exit never overlap, no callback starts after Done() was observed, none at all when the publisher shuts down before ready, Done() closes after a close",
+		Rule:        "publisher-level root + NewMonitor (untyped, and typed pod through the real typed wrapper) with a recording handler whose every callback contains a scheduling point (handler slower than the producer = the scheduler delays it); event sequences of length <= 3 over all three event types; Monitor.Close / publisher shutdown at every position of the stream including before readiness; all interleavings (S1) for K<=2, deviation-bounded (S2) for K=3; oracle on the callback log: OnInitialize at most once and first with a cache content that existed since readiness, later callbacks are a contiguous run of the published events (all of them from the first when nothing is closed and the monitor sits on the root), a handler with OnCreate/OnUpdate only is called for exactly the matching events, an OnInitialize slower than the whole stream loses none of it, enter/exit never overlap, no callback starts after Done() was observed, none at all when the publisher shuts down before ready, Done() closes after a close",
 		Assumptions: []string{"K <= buffer size (a slow handler never causes a legitimate overflow drop)"},
 		Scenarios: func(tier string) []runner.Sc {
 			var out []runner.Sc
